@@ -13,6 +13,7 @@ import (
 	"verif/internal/core"
 
 	_ "verif/checks/c01"
+	_ "verif/checks/c06"
 	_ "verif/checks/c09"
 )
 
